@@ -262,3 +262,48 @@ def mutable_default_state(ctx, fi, rule):
                'every key this method writes into it is written on every path before it is handed on'),
                construct='shared default `%s` of %s' % (p, raw.qualname))
     return n
+
+
+def minimal_scan(ctx, node_fi, rule):
+    """`for s in sorted(F, key=len): if any(set(t) < set(s) for t in found): <skip>; found.append(s)` collects the MINIMAL members of a
+    family of sets by walking it from small to large.  A member that contains an already found one is not minimal and is skipped with
+    `continue`; `break` would also drop every later (larger) member, although a larger set can be incomparable with everything found
+    so far - it is minimal too.  One obligation per such scan (functions nested in `node_fi` included)."""
+    raw = getattr(node_fi, 'original', node_fi)
+    n = 0
+    for lp in [x for x in ast.walk(raw.node) if isinstance(x, ast.For) and isinstance(x.target, ast.Name)]:
+        it = lp.iter
+        if isinstance(it, ast.Name):
+            defs = [a.value for a in ast.walk(raw.node) if isinstance(a, ast.Assign) and len(a.targets) == 1 and U(a.targets[0]) == it.id]
+            it = defs[0] if len(defs) == 1 else it
+        if not (isinstance(it, ast.Call) and U(it.func) == 'sorted' and any(k.arg == 'key' and U(k.value) in ('len',) for k in it.keywords)):
+            continue
+        if any(k.arg == 'reverse' for k in it.keywords):
+            continue
+        s = lp.target.id
+        if not lp.body or not isinstance(lp.body[0], ast.If) or lp.body[0].orelse or len(lp.body[0].body) != 1:
+            continue
+        guard, act = lp.body[0].test, lp.body[0].body[0]
+        if not isinstance(act, (ast.Continue, ast.Break)):
+            continue
+        if not (isinstance(guard, ast.Call) and U(guard.func) == 'any' and len(guard.args) == 1 and isinstance(guard.args[0], (ast.GeneratorExp, ast.ListComp))
+                and len(guard.args[0].generators) == 1):
+            continue
+        g = guard.args[0].generators[0]
+        found = U(g.iter)
+        t = U(g.target)
+        cmp_ = U(guard.args[0].elt).replace(' ', '')
+        if cmp_ not in ('set(%s)<set(%s)' % (t, s), 'set(%s)<=set(%s)' % (t, s), 'set(%s).issubset(%s)' % (t, s), 'set(%s)>set(%s)' % (s, t),
+                        'set(%s)>=set(%s)' % (s, t)):
+            continue
+        appends = [c for st in lp.body[1:] for c in ast.walk(st) if isinstance(c, ast.Call) and isinstance(c.func, ast.Attribute)
+                   and c.func.attr in ('append', 'add') and U(c.func.value) == found and len(c.args) == 1 and U(c.args[0]) == s]
+        if not appends:
+            continue
+        n += 1
+        ctx.ob(rule, node_fi, act, isinstance(act, ast.Continue),
+               'scan of `%s` from small to large that keeps the members containing no member kept so far (`%s`): a member that is not minimal is '
+               'skipped with `continue`%s' % (U(it)[:50], found, '' if isinstance(act, ast.Continue) else
+               '; `break` ends the scan, although a later, larger member can be incomparable with everything kept so far and minimal as well'),
+               construct='minimal-members scan over ' + U(lp.iter)[:40])
+    return n
